@@ -398,7 +398,7 @@ Definition x_family (a : N) : list shape :=
   flat_map (fun m => [mk m [I]; mk I [m]; mk m [m]; mk I [m; I]; mk I [I; m]]) (near_misses a).
 Definition xshapes : list shape := Eval vm_compute in (flat_map x_combo x_certs ++ flat_map x_family [0; 1]).
 Definition n_xshapes : N := Eval vm_compute in N.of_nat (length xshapes).
-Definition quick_d_cfgs : list N := [0; 1; 16; 32; 36; 511].
+Definition quick_d_cfgs : list N := [0; 1; 16; 36].
 (* thorough: every eighth subset and the sixteen other lists *)
 Definition full_d_cfgs : list N := Eval vm_compute in (map (fun i => 8 * i + 4) (map N.of_nat (seq 0 64)) ++ map (fun i => 512 + i) (map N.of_nat (seq 0 16))).
 Definition x_cases (cfgs : list N) : list (N * shape) := flat_map (fun cfg => map (pair cfg) xshapes) cfgs.
